@@ -33,6 +33,7 @@ PROPS = {
     },
     "C19": {
         "suites": [{"name": "units", "quick": 3000, "thorough": 150000}],
+        "sweeps": ["amp", "pan"],   # thorough tier: every finite f32 bit pattern on the real code
         "level_text": "Lean theorems (monotone/exact decibel law, equal-power pan law, octave law, clock-speed unit "
                       "consistency, clock-time fraction/add-sub/no-wrap/order, easing endpoints+monotonicity for all 7 easings, "
                       "mapping clamping) proved over the reals for all inputs; the same definitions run as a Float twin and agree "
